@@ -2,6 +2,7 @@ import SJ.Drv.C06
 import SJ.Model.ViaValue
 import SJ.Model.NumberAp
 import SJ.Spec.Number
+import SJ.Spec.NumberAcc
 /-!
 Driver side of `c06_via_value` / `c20_accessors`: the ops `int` and `acc` keep the specification verdicts of
 `SJ.Drv.C06` and get their MODEL fields from the transcriptions the theorems are about —
@@ -87,13 +88,33 @@ def accModel (cfg : Machine.Cfg) (lit : Bytes) : String :=
       (match NumberAp.numAsF64 ap n with | some bits => hex16 bits | none => "N")]
   | _ => "ERR"
 
+/-- the accessor clause of C20 on the crate's own answers (arbitrary_precision builds): `Spec.NumberAcc.accInt` of the
+    literal as the specification reads it, `is_*` iff `as_*` is `Some`, `is_f64` iff fraction/exponent and `as_f64` is `Some` -/
+def accSpecC20 (lit : Bytes) (impl : String) : List String :=
+  match Spec.Decimal.NumLit.parse lit with
+  | none => []
+  | some l =>
+    if impl == "ERR" then [] else
+    let f := impl.splitOn "|"
+    let exp := [optS (Spec.NumberAcc.accInt .i64 l), optS (Spec.NumberAcc.accInt .u64 l),
+                optS (Spec.NumberAcc.accInt .i128 l), optS (Spec.NumberAcc.accInt .u128 l)]
+    let s1 := if f.take 4 == exp then [] else
+      [s!"C20 accessors as_i64|as_u64|as_i128|as_u128 = {String.intercalate "|" (f.take 4)}, the literal's exact integer values are {String.intercalate "|" exp}"]
+    let s2 := if (f.getD 4 "" == "1") == (f.getD 0 "" != "N") && (f.getD 5 "" == "1") == (f.getD 1 "" != "N") then []
+      else ["C20 is_i64/is_u64 disagree with as_i64/as_u64"]
+    let s3 := if (f.getD 6 "" == "1") == (!Spec.NumberAcc.isIntLit l && f.getD 7 "" != "N") then []
+      else ["C20 is_f64 must be true exactly for a literal with fraction/exponent whose as_f64 is Some"]
+    s1 ++ s2 ++ s3
+
 def acc : Handler := fun args impl =>
   let o := C06.acc args impl
   if o.model.startsWith "BADCASE:" then o else
   match args with
   | [c, h] =>
     match bytesOfHex h with
-    | some bs => { o with model := accModel (cfgOfTag c) bs }
+    | some bs =>
+      let cfg := cfgOfTag c
+      { o with model := accModel cfg bs, specs := o.specs ++ (if cfg.ap then accSpecC20 bs impl else []) }
     | none => o
   | _ => o
 
